@@ -320,6 +320,12 @@ func checkC12(c *checkCtx) {
 	parallel(len(jobs), func(i int) {
 		results[i] = run(top, 5*time.Minute, nil, loxBin, jobs[i].dir)
 	})
+	// a run that hit the limit under 16-way load is repeated alone before it counts as a hang
+	for i := range jobs {
+		if results[i].TimedOut {
+			results[i] = run(top, 15*time.Minute, nil, loxBin, jobs[i].dir)
+		}
+	}
 	accepted, rejected := 0, 0
 	for i, j := range jobs {
 		ok, why := classifyLox(j.dir, results[i])
